@@ -272,6 +272,11 @@ def run(ctx):
                         inputs={'suite': 'mra', 'input': cases[idx][0], 'property_failure': why}, failing_input_found=bool(why))
     gen_suite(ctx, 'mra_generated', "fun x => let '(sy, n, s, h, L) := x in gen_moment_reduction_array sy n s h L", 'res_eqb',
               'bool * nat * qsig * qsig * qsig', 'option (list (list Q))', cases, 200)
+    why, _ = oracle_noise_exponents(ctx.rng)
+    ctx.suites['noise_exponents'] = {'cases': 4, 'failure': why}
+    ctx.evaluations += 4
+    if why:
+        ctx.problem('oracle', 'property fails on the implementation: ' + why, inputs={'suite': 'noise_exponents'}, failing_input_found=True)
     why, _ = oracle_decimal(ctx.rng)
     ctx.suites['decimal_exponents'] = {'cases': 12, 'failure': why}
     ctx.evaluations += 12
@@ -361,6 +366,39 @@ def oracle_decimal(rng):
             if abs(lhs - rhs) > 1e-9 * (1 + abs(lhs) + float(np.abs(coeffs) @ (np.abs(C) @ GL))):
                 return ('s(x) h(x) = %r but s.c . (C G_L(x)) = %r at x = %s for the coefficient vector %s; s.alpha=%s, h.alpha=%s (h has %d term(s)), '
                         'C=%s' % (lhs, rhs, x.tolist(), coeffs.tolist(), s.alpha.tolist(), h.alpha.tolist(), h.m, C.tolist())), None
+    return None, None
+
+
+def oracle_noise_exponents(rng):
+    """exponents with noise beyond the 7th decimal (1e-9, -2e-9: rounding produces +0.0 and -0.0, 0.5 and 0.5000000004): rows that denote the same
+    monomial are ONE row, their coefficients add, relative_coeff_vector places the sum, and the moment-reduction identity holds"""
+    Signomial, Polynomial, sc = mods()
+    for eps_h, eps_s in ((-1e-9, -2e-9), (1e-9, -2e-9), (-1e-9, 3e-9), (-4e-10, -4e-10)):
+        h = Signomial(np.array([[1.0, 0.0], [1.0, eps_h], [0.0, 1.0]]), np.array([2.0, 3.0, 1.0]))
+        s = Signomial(np.array([[0.0, eps_s], [1.0, 0.0], [0.5, 0.5 + eps_h]]), np.array([1.0, 1.0, 1.0]))
+        if h.m != 2 or sorted(float(v) for v in h.c) != [1.0, 5.0]:
+            return ('Signomial with exponent rows (1, 0), (1, %g), (0, 1) and coefficients 2, 3, 1 has %d rows %s with coefficients %s; the first two rows '
+                    'denote one monomial (coefficient 5)' % (eps_h, h.m, h.alpha.tolist(), np.asarray(h.c).tolist())), None
+        ref = np.array([[0.0, 1.0], [1.0, 0.0], [2.0, 2.0]])
+        rcv = np.asarray(sc.relative_coeff_vector(h, ref), dtype=float).tolist()
+        if rcv != [1.0, 5.0, 0.0]:
+            return 'relative_coeff_vector of 5*exp(x0) + exp(x1) (given with a repeated row up to 1e-9) against rows (0,1),(1,0),(2,2) is %s' % rcv, None
+        L = Signomial(s.alpha, np.ones(s.m)) * Signomial(h.alpha, np.abs(h.c)) + Signomial(np.array([[3.0, 3.0]]), np.array([1.0]))
+        try:
+            with warnings.catch_warnings():
+                warnings.simplefilter('ignore')
+                C = np.asarray(sc.moment_reduction_array(s, h, L), dtype=float)
+        except RuntimeError as e:
+            return 'moment_reduction_array raised %r for exponents with noise beyond the 7th decimal (eps %g, %g)' % (e, eps_h, eps_s), None
+        for _ in range(3):
+            coeffs = np.array([float(rng.randint(-3, 3)) for _ in range(s.m)])
+            x = np.array([rng.randint(-4, 4) / 4.0 for _ in range(2)])
+            GL = np.exp(L.alpha @ x)
+            lhs = float((coeffs @ np.exp(s.alpha @ x)) * h(x))
+            rhs = float(coeffs @ (C @ GL))
+            if abs(lhs - rhs) > 1e-6 * (1 + abs(lhs)):
+                return ('s(x) h(x) = %r but s.c . (C G_L(x)) = %r at x = %s for the coefficient vector %s; exponents carry noise %g / %g beyond the 7th decimal; C=%s'
+                        % (lhs, rhs, x.tolist(), coeffs.tolist(), eps_h, eps_s, C.tolist())), None
     return None, None
 
 
